@@ -28,6 +28,13 @@ pub struct KeyFamily {
     /// keys come in pairs (k, k + one letter): every other key is a proper
     /// prefix of its successor, so final nodes keep getting transitions
     pub pairs: bool,
+    /// > 0: "leaf fans" — consecutive groups of `leaf_fan` keys share a
+    /// counter prefix and differ in one last byte drawn from a per-prefix
+    /// subset, so every prefix ends in a *distinct* node with `leaf_fan`
+    /// transitions (an unbounded number of distinct wide nodes)
+    pub leaf_fan: u32,
+    /// values strictly decrease with the key (outputs keep being pushed down)
+    pub decreasing: bool,
 }
 
 impl KeyFamily {
@@ -52,6 +59,20 @@ impl KeyFamily {
     }
     /// Write key `i` into `buf` (reusing its capacity).
     pub fn key_into(&self, i: u64, buf: &mut Vec<u8>) {
+        if self.leaf_fan > 0 {
+            let fan = self.leaf_fan as u64;
+            let base = KeyFamily { leaf_fan: 0, pairs: false, n: self.n / fan + 1, fanout: 26, ..*self };
+            let p = i / fan;
+            let j = i % fan;
+            base.key_into_plain(p, buf, base.digits());
+            // a window of fan+1 consecutive byte values with one hole
+            let h = mix(self.seed, 0x1eaf, p);
+            let start = h % (256 - fan);
+            let hole = (h >> 16) % (fan + 1);
+            let b = start + j + if j >= hole { 1 } else { 0 };
+            buf.push(b as u8);
+            return;
+        }
         if self.pairs {
             let base = KeyFamily { pairs: false, n: self.n / 2 + 1, ..*self };
             base.key_into_plain(i / 2, buf, self.digits());
@@ -91,6 +112,9 @@ impl KeyFamily {
         }
     }
     pub fn value(&self, i: u64) -> u64 {
+        if self.decreasing {
+            return (1u64 << 40) - i;
+        }
         mix(self.seed, 0x76, i) & 0xffff_ffff
     }
 }
@@ -132,7 +156,7 @@ pub fn build_bound(registry: Option<(usize, usize)>, fanout: u32, keylen: u32) -
 
 pub fn run_mem_build(case: &MemBuildCase) -> MemBuildRun {
     let fam = case.fam;
-    let bound = build_bound(case.registry, fam.fanout, fam.keylen + fam.pairs as u32);
+    let bound = build_bound(case.registry, std::cmp::max(fam.fanout, fam.leaf_fan), fam.keylen + 1);
     let mut sink = SinkState::new(
         Plan::clean(),
         Decider::Random { shape: case.shape, rng: Rng::new(fam.seed ^ 0x51) },
@@ -436,6 +460,39 @@ fn measure_all(fam: &KeyFamily, k: u32, fsts_bytes: &[Vec<u8>]) -> Vec<OpMeasure
             drain(ob.union())
         }));
     }
+    // long runs of non-common keys: a tiny FST (every 1000th key) and an
+    // FST that shares no key with the main one but interleaves with it
+    {
+        let mut tb = fst::MapBuilder::memory();
+        let mut db = fst::MapBuilder::memory();
+        for i in 0..fam.n {
+            fam.key_into(i, &mut key);
+            if i % 1000 == 0 {
+                tb.insert(&key, 1).expect("harness: tiny");
+            }
+            if i % 2 == 0 {
+                key.push(b'~');
+                db.insert(&key, 2).expect("harness: disjoint");
+            }
+        }
+        let tiny_b = tb.into_inner().expect("harness: tiny");
+        let disj_b = db.into_inner().expect("harness: disjoint");
+        let tiny = fst::Map::new(&tiny_b[..]).expect("harness: open");
+        let disj = fst::Map::new(&disj_b[..]).expect("harness: open");
+        let tiny_s = fst::Set::new(&tiny_b[..]).expect("harness: open");
+        let disj_s = fst::Set::new(&disj_b[..]).expect("harness: open");
+        out.push(measure("intersection.main_x_tiny.k2", || drain(m0.op().add(&tiny).intersection())));
+        out.push(measure("intersection.main_x_disjoint.k2", || drain(m0.op().add(&disj).intersection())));
+        out.push(measure("union.main_x_disjoint.k2", || drain(m0.op().add(&disj).union())));
+        out.push(measure("symmetric_difference.main_x_disjoint.k2", || {
+            drain(sets[0].op().add(&disj_s).symmetric_difference())
+        }));
+        out.push(measure("difference.main_minus_tiny.k2", || drain(sets[0].op().add(&tiny_s).difference())));
+        out.push(measure("difference.main_minus_disjoint.k2", || drain(sets[0].op().add(&disj_s).difference())));
+        out.push(measure("is_disjoint.main_x_disjoint.k2", || sets[0].is_disjoint(&disj_s) as u64));
+        out.push(measure("is_subset.tiny_in_main.k2", || tiny_s.is_subset(&sets[0]) as u64));
+        out.push(measure("is_superset.main_of_tiny.k2", || sets[0].is_superset(&tiny_s) as u64));
+    }
     out.push(measure("is_subset/superset/disjoint", || {
         let a = &sets[0];
         let b = &sets[std::cmp::min(1, sets.len() - 1)];
@@ -464,7 +521,7 @@ pub fn run_mem_read(case: &MemReadCase) -> MemReadRun {
     let mut run = MemReadRun::default();
     let r = catch_unwind(AssertUnwindSafe(|| -> Option<Violation> {
         for (which, n) in [(0, case.n_small), (1, case.n_large)] {
-            let fam = KeyFamily { n, fanout: case.fanout, keylen: case.keylen, seed: case.seed, pairs: false };
+            let fam = KeyFamily { n, fanout: case.fanout, keylen: case.keylen, seed: case.seed, pairs: false, leaf_fan: 0, decreasing: false };
             let fsts = build_family(&fam, case.k);
             let ms = measure_all(&fam, case.k, &fsts);
             if which == 0 {
@@ -569,7 +626,7 @@ pub struct BigRun {
 /// Stream a large generated family through a real builder into a simulated
 /// file with short writes, reopen it, and compare the full enumeration with
 /// the regenerated family (nothing but the file is kept in memory).
-pub fn run_big_roundtrip(case: &MemBuildCase) -> BigRun {
+pub fn run_big_roundtrip(pid: &str, case: &MemBuildCase) -> BigRun {
     let fam = case.fam;
     let mut sink = SinkState::new(
         Plan::clean(),
@@ -588,7 +645,7 @@ pub fn run_big_roundtrip(case: &MemBuildCase) -> BigRun {
     let r = catch_unwind(AssertUnwindSafe(|| -> Option<Violation> {
         let mut b = match AnyBuilder::create(front, tap, case.registry) {
             Ok(b) => b,
-            Err(e) => return viol("C01.big.constructor_failed", format!("{:?}", e)),
+            Err(e) => return viol(&format!("{}.big.constructor_failed", pid), format!("{:?}", e)),
         };
         for i in 0..fam.n {
             fam.key_into(i, &mut key);
@@ -598,19 +655,19 @@ pub fn run_big_roundtrip(case: &MemBuildCase) -> BigRun {
                 AnyBuilder::Raw(r) => r.add(&key),
             };
             if let Err(e) = r {
-                return viol("C01.legal_call_rejected", format!("key {}: {:?}", i, e));
+                return viol(&format!("{}.legal_call_rejected", pid), format!("key {}: {:?}", i, e));
             }
         }
         let (r, _) = b.finish(Fin::Finish);
         if let Err(e) = r {
-            return viol("C01.finish_failed", format!("{:?}", e));
+            return viol(&format!("{}.finish_failed", pid), format!("{:?}", e));
         }
         None
     }));
     let mut out = BigRun { violation: None, digest: 0, bytes: 0, short: 0, intr: 0 };
     match r {
         Err(p) => {
-            out.violation = viol("C01.panic", panic_msg(p));
+            out.violation = viol(&format!("{}.panic", pid), panic_msg(p));
             return out;
         }
         Ok(Some(v)) => {
@@ -631,15 +688,15 @@ pub fn run_big_roundtrip(case: &MemBuildCase) -> BigRun {
     d.bytes(&bytes);
     out.digest = d.finish();
     let r = catch_unwind(AssertUnwindSafe(|| -> Option<Violation> {
-        if let Some(v) = crate::oracle::check_footer("C01", &bytes) {
+        if let Some(v) = crate::oracle::check_footer(pid, &bytes) {
             return Some(v);
         }
         let f = match fst::raw::Fst::new(&bytes[..]) {
             Ok(f) => f,
-            Err(e) => return viol("C01.readback_failed", format!("{:?}", e)),
+            Err(e) => return viol(&format!("{}.readback_failed", pid), format!("{:?}", e)),
         };
         if let Err(e) = f.verify() {
-            return viol("C01.verify_rejects_fresh_build", format!("{:?}", e));
+            return viol(&format!("{}.verify_rejects_fresh_build", pid), format!("{:?}", e));
         }
         if f.len() as u64 != fam.n || f.is_empty() != (fam.n == 0) {
             return viol(
@@ -652,7 +709,7 @@ pub fn run_big_roundtrip(case: &MemBuildCase) -> BigRun {
         let mut key = Vec::new();
         while let Some((k, v)) = s.next() {
             if i >= fam.n {
-                return viol("C01.content_differs_from_model", format!("more than {} entries", fam.n));
+                return viol(&format!("{}.content_differs_from_model", pid), format!("more than {} entries", fam.n));
             }
             fam.key_into(i, &mut key);
             let want = big_value(&fam, case.map, i);
@@ -672,13 +729,13 @@ pub fn run_big_roundtrip(case: &MemBuildCase) -> BigRun {
             i += 1;
         }
         if i != fam.n {
-            return viol("C01.content_differs_from_model", format!("{} entries, want {}", i, fam.n));
+            return viol(&format!("{}.content_differs_from_model", pid), format!("{} entries, want {}", i, fam.n));
         }
         None
     }));
     out.violation = match r {
         Ok(v) => v,
-        Err(p) => viol("C01.reader_panicked", panic_msg(p)),
+        Err(p) => viol(&format!("{}.reader_panicked", pid), panic_msg(p)),
     };
     out
 }
